@@ -111,3 +111,12 @@ Proof.
   pose proof (rrun_bound _ _ _ _ _ _ _ _ _ _ _ H) as Hb. unfold rank_bound in Hb.
   change (rank_sum (c_targets cfg) [RoMain M0]) with (8 + 3 * List.length (c_targets cfg) + 0)%nat in Hb. lia.
 Qed.
+
+(** the model state coupled to a run of the skeleton semantics is a reachable state of the model: every theorem about
+    reachable model states (Properties/C10.v, C11.v) holds of it *)
+Theorem gen_crun_reachable : forall cfg acts evs g s,
+  crun Pg cfg (ginit Pg (c_targets cfg)) (init cfg) acts evs g s -> reachable cfg s /\ skel_rel cfg g s.
+Proof.
+  intros cfg acts evs g s H. destruct (gen_skeleton_run_is_model_run cfg acts evs g s H) as (_ & (ls & Hl & _) & Hr).
+  split; [now exists ls | exact Hr].
+Qed.
